@@ -28,7 +28,7 @@ OUTSIDE = ["bash-completion bridge", "Completer.complete_line splicing", "names 
 
 OPAQUE_NUMBER_FORMAT = True
 
-POOL = ["a", " ", "'", '"', "\\", "$", "~", "!", "*", "#", "\n", "-", "\t", "é"]
+POOL = ["a", " ", "'", '"', "\\", "$", "~", "!", "*", "#", "\n", "-", "\t", "é", "\u00a0"]  # last: a non-ASCII blank (NO-BREAK SPACE)
 STYLES = [("", ""), ("'", "'"), ('"', '"'), ("r'", "'"), ('r"', '"')]
 REC: List = []
 
